@@ -96,7 +96,7 @@ def canon_err(e, sess):
             try: return ['SessionCloseError', ast.literal_eval(m.group(1)).hex()]
             except Exception: pass
         return ['SessionCloseError', 'text:' + s]
-    if isinstance(e, Boom):
+    if isinstance(e, Boom) or 'scripted transport failure' in str(e):
         return ['TransportExc', sess.t.writes[-1][0].hex() if sess.t.writes else '']
     return [type(e).__name__, str(e)[:80]]
 
